@@ -51,6 +51,7 @@ void sym_inputs(void)
 #ifdef REPLAY
 #include "replay_inputs.inc"
 #else
+  SYM_FEED();
   SYM_ARR(file); SYM(flen); SYM(istop); SYM(topk); SYM(openfail);
 #ifdef TWICE
   SYM_ARR(file2);
